@@ -233,12 +233,21 @@ func genC02(ctx *Ctx) {
 	r := ctx.Rng
 	allocatorCases(ctx)
 	// (a) concurrent clients, equal stream ids, delayed/reordered answers, immediate stream reuse
+	// the first rounds of (a) and (b) are also recorded at the proxy's own atomic steps and judged by the trace monitor
+	// (stream exclusivity, pops matching pushes, one reply per request, to its own client and stream)
+	proxycore.VerifTraceStart()
 	e := newEchoEnv(2, nil)
 	tag := 0
 	for i := 0; i < ctx.Scale(6, 60); i++ {
 		tag++
 		clients, streams, rounds := 1+r.Intn(6), 1+r.Intn(64), 2+r.Intn(4)
 		emitEcho(ctx, echoRound(e, tag, clients, streams, rounds, r, 0), fmt.Sprintf("echo:%dclients", clients), true)
+		if i == 2 {
+			tag++
+			emitEcho(ctx, echoRound(e, tag, 3, 16, 3, r, 4), "echo-with-exhausted-plans", false)
+			time.Sleep(50 * time.Millisecond)
+			emitTrace(ctx, true, "traced-run: concurrent clients with equal stream ids, reordered answers, exhausted plans")
+		}
 	}
 	// (b) some requests fail on every host (retry exhausts the plan): the error frames are the
 	// proxy's own, and nothing may spill over to the next request on the reused stream
